@@ -30,12 +30,13 @@ disorder/transition_stats/mean_ordered_times, disorder/cards_matrices/raised, ..
 Scope (quick; thorough in brackets), TLC workers = 1 per run, at most 4 runs at once:
   times  all strictly increasing tt over 0..8 [0..10]
   dtraj  traj_len 1..6 [1..7], every tt over 0..len-2, ord/disord time in
-         {1,2,3,5,9,20}/{1,2} squared
-  agg    (n_traj, n_feat) in {(1,1),(2,1),(3,1),(1,2),(2,2)}, times (0..3)/2, weights 0..2
+         {1,3,9,20}/{1,2} squared [{1,2,3,5,9,20}/{1,2}]
+  agg    (n_traj, n_feat) in {(1,1),(2,1),(3,1),(1,2),(2,2)}, times (0..2)/2 [(0..3)/2], weights 0..2
          (not all zero), two n_times tables
   pipe   all state arrays: 1 traj x 1 feature, 3 states, 1..6 frames; 2 x 1, 2 states,
-         1..5 frames [1..6]; 1 x 2 and 2 x 2, 2 states, 1..3 frames; and the "long" family:
-         2 trajectories of 24 frames whose transitions are any subset of {0,17,18,19,21,22}
+         1..4 frames [1..6]; 1 x 2 and 2 x 2, 2 states, 1..2 frames [1..3]; and the "long" family:
+         2 trajectories of 24 frames whose transitions are any subset of {0,17,18,19,21} [+22],
+         1 trajectory x 2 features of 24 frames with transitions within {0,17,18,19}
          (the small arrays never reach a disordered segment: under the definition it takes
          a wait of >= 17 frames followed by rapid transitions)
 """
@@ -77,8 +78,8 @@ TAG = {"times": "TIMES", "dtraj": "DTRAJ", "agg": "AGG", "pipe": "PIPE"}
 def consts(mode, **kw):
     base = dict(Mode='"%s"' % mode,
                 KnownDeviation="{" + ", ".join('"%s"' % k for k in KnownDeviation) + "}",
-                Emit="TRUE", MaxT=8, MinL=1, MaxL=6, TimeNums="{1, 2, 3, 5, 9, 20}", TimeDens="{1, 2}",
-                Shapes="{11}", MaxTime=3, TimeDen=2, MaxW=2, S=2, Family='"all"', LongLen=24,
+                Emit="TRUE", MaxT=8, MinL=1, MaxL=6, TimeNums="{1, 3, 9, 20}", TimeDens="{1, 2}",
+                Shapes="{11}", MaxTime=2, TimeDen=2, MaxW=2, S=2, Family='"all"', LongLen=24,
                 LongFrames="{0, 17, 18, 19, 21, 22}")
     base.update(kw)
     return {k: str(v) for k, v in base.items()}
@@ -87,13 +88,18 @@ def consts(mode, **kw):
 def part_jobs(tier):
     th = tier == "thorough"
     J = [("times: tt over 0..%d" % (10 if th else 8), "times", consts("times", MaxT=10 if th else 8)),
-         ("dtraj: len 1..%d x (ord, disord) grid" % (7 if th else 6), "dtraj", consts("dtraj", MaxL=7 if th else 6)),
-         ("agg: 5 shapes, times (0..3)/2, weights 0..2", "agg", consts("agg", Shapes="{11, 21, 31, 12, 22}")),
+         ("dtraj: len 1..%d x (ord, disord) grid" % (7 if th else 6), "dtraj",
+          consts("dtraj", MaxL=7 if th else 6, TimeNums="{1, 2, 3, 5, 9, 20}" if th else "{1, 3, 9, 20}")),
+         ("agg: 5 shapes, times (0..%d)/2, weights 0..2" % (3 if th else 2), "agg",
+          consts("agg", Shapes="{11, 21, 31, 12, 22}", MaxTime=3 if th else 2)),
          ("pipe all: 1x1 S=3 len 1..6", "pipe", consts("pipe", Shapes="{11}", S=3, MaxL=6)),
-         ("pipe all: 2x1 S=2 len 1..%d" % (6 if th else 5), "pipe", consts("pipe", Shapes="{21}", MaxL=6 if th else 5)),
-         ("pipe all: 1x2, 2x2 S=2 len 1..3", "pipe", consts("pipe", Shapes="{12, 22}", MaxL=3)),
+         ("pipe all: 2x1 S=2 len 1..%d" % (6 if th else 4), "pipe", consts("pipe", Shapes="{21}", MaxL=6 if th else 4)),
+         ("pipe all: 1x2, 2x2 S=2 len 1..%d" % (3 if th else 2), "pipe", consts("pipe", Shapes="{12, 22}", MaxL=3 if th else 2)),
          ("pipe long: 2x1, 24 frames, transitions within %s" % ("{0,17,18,19,21,22}" if th else "{0,17,18,19,21}"), "pipe",
           consts("pipe", Shapes="{21}", Family='"long"', LongFrames="{0, 17, 18, 19, 21, 22}" if th else "{0, 17, 18, 19, 21}"))]
+    # two features with different mean times: a mix-up of the feature index is visible only here
+    J.append(("pipe long: 1x2, 24 frames, transitions within {0,17,18,19}", "pipe",
+              consts("pipe", Shapes="{12}", Family='"long"', LongFrames="{0, 17, 18, 19}")))
     if th:
         J.append(("pipe long: 1x2 + 3x1, 24 frames, transitions within {1,18,19,21}", "pipe",
                   consts("pipe", Shapes="{12, 31}", Family='"long"', LongFrames="{1, 18, 19, 21}")))
@@ -460,7 +466,8 @@ def run_part(ctx):
     for n, (label, mode, cs) in enumerate(part_jobs(ctx.tier)):
         name = "xd%d.cfg" % n
         core.write_cfg(os.path.join(d, name), constants=cs, invariants=INV[mode] + ["EmitInv"])
-        jobs.append(dict(module="Disorder", cfg=name, cwd=d, label="x_disorder " + label, workers=1, coverage=True,
+        jobs.append(dict(module="Disorder", cfg=name, cwd=d, label="x_disorder " + label, workers=1,
+                         coverage=("long" not in label),
                          timeout=600 if ctx.tier == "quick" else 2400, java_opts=("-Xmx2g",)))
         meta.append(mode)
     # model-level note: the aggregate is NOT the mean over the trajectories that observed the feature
@@ -471,7 +478,10 @@ def run_part(ctx):
                      workers=1, timeout=300, java_opts=("-Xmx1g",), expect_ok=False))
     meta.append("model-neg")
 
+    import time
+    t0 = time.time()
     results = ctx.tlc_parallel(jobs, max_par=4)
+    t_tlc = time.time() - t0
 
     stats = {"cases": {}, "either_frames": 0, "bound_to_transcription": {}, "mismatch_counts": report.counts}
     plumb = None
@@ -520,6 +530,7 @@ def run_part(ctx):
                 report({"kind": "x_disorder", "tag": tag, "case": {kk: vv for kk, vv in c.items() if kk != "plumb"},
                         "detail": detail,
                         "how": "enspara.cards.disorder / cards.cards_matrices vs Disorder.tla (%s line)" % tag}, k)
+    stats["wall_s"] = {"tlc": round(t_tlc, 1), "replay": round(time.time() - t0 - t_tlc, 1)}
     stats["known_deviation"] = list(KnownDeviation)
     stats["cards_matrices_containers"] = plumb["containers"] if plumb else None
     ctx.notes["x_disorder"] = stats
